@@ -736,6 +736,9 @@ func runInBubble(t *testing.T, in Input) Obs {
 func gContent(fee, gas, pub uint64) string { return App("Build_content", N(fee), N(gas), N(pub)) }
 
 func gReg(r RegObs) string {
+	if r.Sig.Fee == r.Fee && r.Sig.Gas == r.Gas && r.Sig.Pub == r.Pub && r.Sig.Stamp == r.Stamp {
+		return App("R", N(r.Fee), N(r.Gas), N(r.Pub), N(r.Stamp), N(r.Sig.Acct))
+	}
 	return App("Build_sreg", gContent(r.Fee, r.Gas, r.Pub), N(r.Stamp),
 		App("Build_sig", N(r.Sig.Acct), gContent(r.Sig.Fee, r.Sig.Gas, r.Sig.Pub), N(r.Sig.Stamp)))
 }
@@ -856,7 +859,7 @@ func term(id uint64, in Input, obs Obs) string {
 		case "round":
 			reqs := make([]string, 0, len(oo.Reqs))
 			for _, q := range oo.Reqs {
-				reqs = append(reqs, App("Build_sigreq", N(q.Acct), gContent(q.Fee, q.Gas, q.Pub), N(q.Stamp), Bool(q.OK)))
+				reqs = append(reqs, App("Q", N(q.Acct), N(q.Fee), N(q.Gas), N(q.Pub), N(q.Stamp), Bool(q.OK)))
 			}
 			outs = append(outs, App("OutRound", Bool(oo.Err), List(reqs), gRelays(oo.Relays), gNodes(oo.Nodes)))
 		case "forward":
@@ -1041,6 +1044,7 @@ func TestC11(t *testing.T) {
 	deadlock.Opts.Disable = true
 	col := NewCollector("C11", "Check.C11",
 		"histories of 2-9 operations (registration rounds by the job or the API, REST forwarding, proposal preparations) over 1-6 validators, 0-3 relays with per-relay settings, 0-3 secondary and 1-3 preparation beacon nodes, with settings changing between rounds (A->B->A included) and failing subsets of relays / nodes / signing requests / validators, run on the real block relay and proposal preparer services in a synctest bubble. Non-trivial = at least two rounds did their work, a signature was made and a cached registration was reused; distinct by input text")
+	col.ShardSize = 100 // the terms are long: about 60 ms per case in coqc
 	n := EnvInt("VERIF_N", 500)
 	thorough := os.Getenv("VERIF_TIER") == "thorough"
 	var ins []Input
